@@ -11,8 +11,8 @@ CHECKS = {
   "note": "exhaustive only for the small constants listed in the evidence; larger windows by validated implementation traces; transport assumed order preserving per direction; TLC and the Go runtime's synctest are trusted",
  },
  "C07": {
-  "text": "TLC checks NoPanic on the transcribed decoders for every byte string over a reduced alphabet, the window lemmas for every wire value, and WindowBound on GBN.tla with a relay forging ACK/NACKs; the real decoders are compared with the operators (function trace), every SYN window value and a forged packet of every class in every small window state are fed to live endpoints whose traces are validated; any panic of the code under test is a violation. A raw no-panic sweep over 17 M byte strings is reported separately (exploration).",
-  "note": "GBN layer and codecs; Noise-level malformed input is covered by C02/C04/C16 checks; a crash is attributed to the scenario recorded just before it",
+  "text": "TLC checks NoPanic on the transcribed decoders for every byte string over a reduced alphabet, the window lemmas for every wire value, and WindowBound on GBN.tla with a relay forging ACK/NACKs; the real decoders are compared with the operators (function trace), every SYN window value and a forged packet of every class in every small window state are fed to live endpoints whose traces are validated; above GBN, every act of the Noise handshake (XX and KK, either reader) is truncated at every length, bit-flipped at every byte, replaced by random and by every short string, encrypted records are corrupted / truncated / replayed / replaced, and the websocket JSON envelope handling is fed valid, error-wrapped, malformed, short, random and mutated messages, each outcome compared with Trace_Stages.tla; any panic of the code under test is a violation. A raw no-panic sweep over 17 M byte strings is reported separately (exploration).",
+  "note": "a crash is attributed to the scenario recorded just before it; at the handshake and record stages the transport ends 40 ms after the mutated bytes (standing in for the read timeout)",
  },
  "C09": {
   "text": "TLC proves the window-arithmetic lemmas for every (s, base, top, wire value) tuple of the listed sequence spaces, Apalache discharges them for every sequence space 2..256 at once (and refutes the pinned unguarded arithmetic), and WindowBound/Outstanding/AddOnlyWithRoom on GBN.tla; the real queue's results for all 256 ACK/NACK values in every window state are compared by TLC with the specification's operators; blocking scenarios and random-fault runs of real connections are trace-validated with the window invariants evaluated in every state.",
